@@ -135,6 +135,21 @@ class SourceIndex:
                 m._top(node)
             m.pyx_span = (l0, l1)
             self.modules[name] = m
+        if name not in self.modules and name.startswith("pyxfn:"):
+            # "pyxfn:<relative path>:<f1>,<f2>": scalar `cdef` functions of a .pyx file translated mechanically (translate_cdef_function)
+            _, rel, fns = name.split(":")
+            path = os.path.join(self.repo, rel)
+            if not os.path.exists(path):
+                raise AnchorLost(f"{rel} not found")
+            text = "\n\n".join(translate_cdef_function(path, fn) for fn in fns.split(","))
+            m = ModuleInfo.__new__(ModuleInfo)
+            m.name, m.path, m.text = name, path, text
+            m.lines = text.split("\n")
+            m.tree = ast.parse(text)
+            m.functions, m.classes, m.assigns, m.imports, m.lambdas = {}, {}, {}, {}, {}
+            for node in m.tree.body:
+                m._top(node)
+            self.modules[name] = m
         if name not in self.modules:
             rel = name.replace(".", "/")
             cands = [os.path.join(self.repo, rel + ".py"), os.path.join(self.repo, rel, "__init__.py")]
@@ -262,3 +277,76 @@ def extract_pyx_class(path, class_name):
             break
     text = "\n".join(lines[start:end])
     return text, start + 1, end
+
+
+C_SCALARS = ("short", "int", "long", "double", "float")
+
+
+def translate_cdef_function(path, fn_name):
+    """Mechanical translation of ONE scalar `cdef` function of a .pyx file into Python text (re-done from the working tree on every run).
+    What it does, and all it does:
+      * header  `cdef <T> f(<T1> a, <T2> b):`      ->  `def f(a, b):`            (C types of the parameters are dropped: arguments are taken as
+                                                                                   values of those types already)
+      * `cdef <T> v = e`                           ->  `v = c_cast_<T>(e)`        (an initialised C local; v is remembered as having type T)
+      * `v = e` for such a v                       ->  `v = c_cast_<T>(e)`        (C converts on assignment)
+      * `<T> e` (cast, to the end of the line)     ->  `c_cast_<T>(e)`
+      * `return e`                                 ->  `return c_cast_<T>(e)`     with T the declared return type
+    Comments and blank lines are kept.  Anything else that is not plain Python (uninitialised `cdef` locals, pointers, memory views, typed loops)
+    makes the function untranslatable: AnchorLost, never a guess.  `c_cast_*`, `cround` (libc round) and `trunc` are engine built-ins."""
+    with open(path, "r", encoding="utf-8") as f:
+        lines = f.read().split("\n")
+    types = "|".join(C_SCALARS)
+    head = None
+    for i, l in enumerate(lines):
+        mm = re.match(rf"cdef\s+({types})\s+{re.escape(fn_name)}\((.*)\)\s*:\s*$", l)
+        if mm:
+            head = (i, mm)
+            break
+    if head is None:
+        raise AnchorLost(f"cdef function {fn_name} not found in {path} (or not of a scalar return type)")
+    i0, mm = head
+    ret_t = mm.group(1)
+    params = []
+    for part in [x.strip() for x in mm.group(2).split(",") if x.strip()]:
+        pm = re.match(rf"({types})\s+(\w+)$", part)
+        if not pm:
+            raise AnchorLost(f"{fn_name}: parameter {part!r} is not a plain C scalar")
+        params.append(pm.group(2))
+    out = [f"def {fn_name}({', '.join(params)}):"]
+    local_t = {}
+
+    def casts(expr):
+        cm = re.match(rf"^(.*?)<({types})>\s*(.*)$", expr)
+        if cm:
+            return cm.group(1) + f"c_cast_{cm.group(2)}(" + casts(cm.group(3)) + ")"
+        return expr
+    for l in lines[i0 + 1:]:
+        if l and not l[0].isspace() and not l.startswith("#"):
+            break
+        body = l.split("#", 1)[0].rstrip()
+        if not body.strip():
+            out.append(l)
+            continue
+        ind = body[:len(body) - len(body.lstrip())]
+        st = body.strip()
+        dm = re.match(rf"cdef\s+({types})\s+(\w+)\s*=\s*(.+)$", st)
+        if dm:
+            local_t[dm.group(2)] = dm.group(1)
+            out.append(f"{ind}{dm.group(2)} = c_cast_{dm.group(1)}({casts(dm.group(3))})")
+            continue
+        if st.startswith("cdef"):
+            raise AnchorLost(f"{fn_name}: {st!r} is outside the translatable subset")
+        am = re.match(r"(\w+)\s*=\s*(.+)$", st)
+        if am and am.group(1) in local_t:
+            out.append(f"{ind}{am.group(1)} = c_cast_{local_t[am.group(1)]}({casts(am.group(2))})")
+            continue
+        rm = re.match(r"return\s+(.+)$", st)
+        if rm:
+            out.append(f"{ind}return c_cast_{ret_t}({casts(rm.group(1))})")
+            continue
+        if "[" in st or "*" in st and "**" not in st and re.search(r"\w\s*\*\s*\w", st) is None or "&" in st:
+            raise AnchorLost(f"{fn_name}: {st!r} is outside the translatable subset")
+        out.append(ind + casts(st))
+    while out and not out[-1].strip():
+        out.pop()
+    return "\n".join(out)
